@@ -228,6 +228,8 @@ def gen_burst(r, n):
         tag = "%x-%d" % (r.getrandbits(40), i)
         own = [ref.make_event(A, kind=r.choice([1, 1, 7, 4, 30000, 10002]), created_at=gen.T0 + r.randint(0, 9), tags=[["d", tag]], content="own %s %d" % (tag, j))
                for j in range(r.choice([1, 1, 2, 4]))]
+        # ... and one created in the very second before the deletion, with an id at the edge of the id space
+        own.append(ref.make_event(A, kind=1, created_at=gen.T0 + 19, tags=[["d", tag]], content="edge %s" % tag, id_prefix=r.choice(["ff", "ff", "00", "fe"])))
         foreign = ref.make_event(B, kind=1, created_at=gen.T0 + 1, content="foreign " + tag)
         D = ref.make_event(A, kind=5, created_at=gen.T0 + 20, tags=[["e", e["id"]] for e in own + [foreign]], content="del " + tag)
         mode = r.choice(["same-connection", "other-connection", "writer-blocked", "mixed-with-load"])
